@@ -118,12 +118,27 @@ let hex_of_raw (s : string) : string =
                                Buffer.add_char b hexdig.[Char.code c land 15]) s;
   Buffer.contents b
 
-(* canonical rendering: "-" | hex (<= 48 bytes) | #len:crc32 *)
+(* canonical rendering: "-" | hex (<= 48 bytes) | #len:crc32 ; long strings are memoised
+   (the CRC over Coq binary numbers is the slow part of the driver) *)
+let render_cache : (int * int, (coq_N list * string) list) Hashtbl.t = Hashtbl.create 64
+
+let rec list_prefix_hash l k acc =
+  if k = 0 then acc else
+    match l with [] -> acc | x :: r -> list_prefix_hash r (k - 1) (acc * 31 + int_of_n x)
+
 let render (l : coq_N list) : string =
   let n = Stdlib.List.length l in
   if n = 0 then "-"
   else if n <= 48 then hex_of_raw (string_of_bytes l)
-  else Printf.sprintf "#%d:%08x" n (int_of_n (Bytes.crc32 l))
+  else begin
+    let key = (n, list_prefix_hash l 24 7) in
+    let bucket = try Hashtbl.find render_cache key with Not_found -> [] in
+    match Stdlib.List.find_opt (fun (l', _) -> l' == l || l' = l) bucket with
+    | Some (_, s) -> s
+    | None ->
+      let s = Printf.sprintf "#%d:%08x" n (int_of_n (Bytes.crc32 l)) in
+      Hashtbl.replace render_cache key ((l, s) :: bucket); s
+  end
 
 let split_ws (s : string) : string list =
   Stdlib.List.filter (fun x -> x <> "") (Stdlib.String.split_on_char ' ' (Stdlib.String.trim s))
